@@ -427,6 +427,15 @@ def backend_name(lang):
     return "C" if lang == "C" else "numba"
 
 
+_OPNAME = {"+": "add", "-": "sub", "*": "mul", "/": "div", "<": "lt", "<=": "le", ">": "gt", ">=": "ge", "==": "eq", "!=": "ne",
+           "&&": "land", "||": "lor", "!": "lnot", "=": "assign", "+=": "assign-add", "**": "pow", "%": "mod", "//": "floordiv"}
+
+
+def _nm(s):
+    s = str(s)
+    return " ".join(_OPNAME.get(w, w) for w in s.split(" ")) if s else ""
+
+
 def reason_key(lang, diff) -> str:
     b = backend_name(lang)
     if diff and diff[0] == "syntax":
@@ -440,7 +449,7 @@ def reason_key(lang, diff) -> str:
         elif ck in ("flt", "int", "num", "imag"):
             key = f"{b}:literal:expected-{ck}:got-{pk}" + (":unaligned" if str(ps).startswith("~") else "")
         else:
-            key = f"{b}:tree:expected-{ck}[{cs}]x{cl}:got-{pk}[{ps}]x{pl}"
+            key = f"{b}:tree:expected-{ck}[{_nm(cs)}]x{cl}:got-{pk}[{_nm(ps)}]x{pl}"
     return KEY_ALIASES.get(key, key)
 
 
